@@ -5,6 +5,8 @@ sys.path.insert(0, os.path.dirname(os.path.abspath(__file__)))
 from vx import registry as R
 
 CLAIM = {
+ 'C04': ('Deductive proof (Verus, any number and sizes of segments) of the transport core on real text: IoBuffers::mark_used advances the cursor over the segment list by exactly n bytes (the remaining byte addresses are the old ones with the first min(n, total) removed, in order, none skipped or repeated), counts them, fails on counter overflow without moving, and its unwrap() cannot panic; consume moves exactly what the callback reports and nothing on error; FuseDevWriter space accounting (available + written = capacity, the space check fails iff the request exceeds it) and FuseDevWriter::commit performs exactly one device write of own ++ other bytes. Readers/writers built on raw pointers are NOT covered.',
+         'Verus contracts with loop invariants over a sequence-of-addresses view, on extracted real text'),
  'C08': ('Deductive proof (Verus, any store contents, any count) on the real text of the passthrough InodeStore and PassthroughFs::forget_one: insert/remove/get maintain the data, id and handle maps exactly (remove deletes exactly that inode, keeps the id -> number record when asked to, releases it otherwise); forget_one never touches the root, may only write current-minus-count saturating at zero into the reference count, removes the inode only in the branch where the successful compare-exchange wrote zero, changes nothing but that inode, and keeps the id -> number record whenever numbers are allocated by the server. The history-level accounting of references is NOT decided.',
          'Verus contracts, representation maps and a capability on compare_exchange, on extracted real text'),
  'C12': ('Deductive proof (Verus, every major/minor/max_readahead/flags/flags2 and every option set the filesystem may return) on the real text of Server::init: the capability word offered to the filesystem is flags, widened by flags2 only when FUSE_INIT_EXT comes with its payload; a lower major is answered EPROTO and a higher one with the server major without initialising the filesystem; otherwise the kernel\'s view of the reply (flags2 counted only with the FUSE_INIT_EXT marker) equals capable & want, the reply has the length for the client\'s minor, max_write fits the transport buffer, and only the client\'s version may be stored. Also: Vfs::open/opendir answer ENOSYS exactly when no_open/no_opendir is in force.',
